@@ -49,6 +49,7 @@ type reqJ struct {
 	Chunk      string `json:"chunk,omitempty"`
 	PayloadHex string `json:"payloadHex,omitempty"`
 	Stream     string `json:"stream,omitempty"`  // hex: raw bytes, framed by the protocol tables
+	AbortAfter int64  `json:"abortAfter,omitempty"` // the client resets the connection after receiving this many bytes of the reply (read-type requests only)
 	Announce   uint64 `json:"announce,omitempty"` // payload ops: the length field says this (> bytes sent): the frame is truncated by construction
 	Cut        int    `json:"cut,omitempty"`     // send only the first Cut bytes of the frame (>0)
 	Stall      bool   `json:"stall,omitempty"`   // with Cut: stay silent afterwards instead of hanging up (the read timeout must end the connection)
@@ -691,7 +692,7 @@ func (env *sessionEnv) buildFrame(r *reqJ) ([]byte, map[string]interface{}, erro
 		case "start":
 			args["start"] = r.Start
 			req["start"] = clampInt(r.Start)
-			if r.Start >= 1<<19 {
+			if r.Start >= 1<<29 {
 				huge = true
 			}
 		case "count":
@@ -754,6 +755,12 @@ func (env *sessionEnv) doReq(c *memConn, cj *connJ, r *reqJ) bool {
 	}
 	env.stall = r.Stall
 	defer func() { env.stall = false }()
+	if r.AbortAfter > 0 {
+		// the peer walks away in the middle of the reply: what it got is not judged, the connection is over
+		c.ArmReset(r.AbortAfter)
+		return env.exchange(c, cj, "ABORTED", map[string]interface{}{"op": "ABORTED", "path": []string{}, "limit": pos(0), "off": pos(0),
+			"start": 0, "count": 0, "plen": 0, "chunk": "", "hugeArgs": false, "of": r.Op, "cut": 0, "bad": []string{}}, frameBytes, nil)
+	}
 	if r.Announce > 0 && r.Cut == 0 {
 		if p, _ := req["plen"].(int); uint64(p) < r.Announce {
 			r.Cut = len(frameBytes)
@@ -867,9 +874,14 @@ func (env *sessionEnv) exchange(c *memConn, cj *connJ, op string, req map[string
 		case hint != nil:
 			srcs := env.reg.matchAt(payload, *hint)
 			if srcs == nil {
-				srcs = []string{}
+				// not the bytes at the requested offset of any source: say what they are instead
+				runs = env.reg.describe(payload)
+				if len(runs) == 1 && len(runs[0].Srcs) == 0 {
+					runs[0].Off = pos(*hint)
+				}
+			} else {
+				runs = []run{{Srcs: srcs, Off: pos(*hint), Len: len(payload)}}
 			}
-			runs = []run{{Srcs: srcs, Off: pos(*hint), Len: len(payload)}}
 		default:
 			block := 0
 			if od := env.pt.byName[decodeOp]; od != nil {
